@@ -280,6 +280,7 @@ def extract():
         parts = qn.split(".")
         if parts[-1] == "__init__" and len(parts) >= 2:
             init_of.setdefault(parts[-2], []).append(qn)
+    extract.funcs = funcs
     calls = {qn: called_names(fn) for qn, fn in funcs.items()}
     reach = set()
     todo = list(ROOTS)
@@ -329,6 +330,54 @@ def extract():
     return rows
 
 
+def query_use_rows(funcs):
+    """For every loop that iterates a variable bound to a get_near_cells result: is the block
+    iterated in the statement list where it was queried, after an unconditional query, with no
+    other binding of that variable in the function?  (The block used for an atom must have been
+    queried for that atom: a query hoisted out of the per-atom loop, or made conditional, fails.)"""
+    rows = []
+
+    def is_query(node):
+        return isinstance(node, ast.Call) and isinstance(node.func, ast.Attribute) and node.func.attr == "get_near_cells"
+
+    for qn in sorted(funcs):
+        fn = funcs[qn]
+        binds = {}
+        for node in ast.walk(fn):
+            if isinstance(node, ast.Assign):
+                for t in node.targets:
+                    if isinstance(t, ast.Name):
+                        binds.setdefault(t.id, []).append(node)
+        qvars = {v for v, ns in binds.items() if any(is_query(n.value) for n in ns)}
+        if not qvars and not any(is_query(n) for n in ast.walk(fn)):
+            continue
+
+        def scan(body):
+            for i, st in enumerate(body):
+                if isinstance(st, (ast.For, ast.AsyncFor)):
+                    it = st.iter
+                    if isinstance(it, ast.Name) and it.id in qvars:
+                        prev = [b for b in body[:i] if isinstance(b, ast.Assign) and any(isinstance(t, ast.Name) and t.id == it.id for t in b.targets)]
+                        ok = bool(prev) and is_query(prev[-1].value) and all(is_query(n.value) for n in binds[it.id])
+                        arg = short(prev[-1].value.args[0]) if ok and prev[-1].value.args else "?"
+                        rows.append((qn, f"for _ in {it.id} <- qry({arg})", ok))
+                    elif is_query(it):
+                        rows.append((qn, f"for _ in qry({short(it.args[0]) if it.args else '?'})", True))
+                for fld in ("body", "orelse", "finalbody"):
+                    sub = getattr(st, fld, None)
+                    if isinstance(sub, list) and sub and isinstance(sub[0], ast.stmt):
+                        scan(sub)
+                for h in getattr(st, "handlers", []) or []:
+                    scan(h.body)
+
+        scan(fn.body)
+        # a query whose result is neither iterated directly nor bound to an iterated variable is listed too
+        used = {r[0] for r in rows}
+        if qn not in used and (qvars or any(is_query(n) for n in ast.walk(fn))) and not qn.startswith("cells."):
+            rows.append((qn, "query result not iterated in this function", False))
+    return rows
+
+
 def coq_str(s: str) -> str:
     return '"' + s.replace('"', '""') + '"'
 
@@ -343,10 +392,16 @@ def emit_files():
         "   creation/removal or rotations: (qualified name, skeleton of those calls\n"
         "   in source order with the control flow around them). *)\n"
         "From Coq Require Import List String.\nImport ListNotations.\nLocal Open Scope string_scope.\n\n"
-        "Definition sites : list (string * string) :=\n [" + body + "].\n"
+        "Definition sites : list (string * string) :=\n [" + body + "].\n\n"
+        "(* every loop over a get_near_cells block: (function, loop, the block is iterated in the\n"
+        "   statement list where it was queried unconditionally, and the variable has no other binding) *)\n"
+        "Definition query_use : list (string * string * bool) :=\n ["
+        + ";\n ".join(f"({coq_str(a)}, {coq_str(b)}, {'true' if c else 'false'})" for a, b, c in query_use_rows(extract.funcs))
+        + "].\n"
     )
     write_if_changed(GEN / "C14Sites.v", txt)
     js = {n: {"skeleton": rows[n][0], "lines": [[t, ln] for t, ln in rows[n][1]]} for n in names}
+    js["__query_use__"] = [[a, b, c] for a, b, c in query_use_rows(extract.funcs)]
     write_if_changed(GEN / "c14_sites.json", json.dumps(js, indent=1, sort_keys=True) + "\n")
     return rows
 
